@@ -32,6 +32,7 @@ LEVEL_TEXT = (
     "published definition, scipy expm, 30-line pruning) and compared layer by layer, so a disagreement names the layer. "
     "Sampled, not exhaustive: continuous parameter spaces and tree space cannot be covered; held means held on the "
     "executions listed in the evidence."
+    " Bin rates are recomputed from the discrete-gamma definition; scopes are also given by tip names with stem/clade flags; codon models are also run without gap recoding on data with partly missing words."
 )
 LEVEL_NOTE = (
     "trusted: numpy/scipy linear algebra; the order of model states; the empirical protein exchangeability tables and "
